@@ -106,6 +106,8 @@ type interpreter struct {
 	envPool    map[*ssa.Function][][]value
 	unwinding  bool
 	panicStack string
+	dynInited  map[*ssa.Package]bool
+	realFmt    bool
 	acc        *accessLog
 	inHook     bool
 	pollCell   *value
@@ -148,6 +150,9 @@ func (fr *frame) get(key ssa.Value) value {
 		return constValue(key)
 	case *ssa.Global:
 		if idx, ok := fr.i.eng.dynIndex[key]; ok {
+			if p := key.Pkg; p != nil && !fr.i.dynInited[p] {
+				fr.i.ensureInit(p)
+			}
 			return &fr.i.dynCells[idx]
 		}
 		if r, ok := fr.i.eng.frozen[key]; ok {
@@ -552,6 +557,9 @@ func callSSA(i *interpreter, caller *frame, callpos token.Pos, fn *ssa.Function,
 		}
 	}
 	if fn.Pkg != nil && i.eng.dynPkg[fn.Pkg] {
+		if !i.dynInited[fn.Pkg] {
+			i.ensureInit(fn.Pkg)
+		}
 		i.funcs[fn]++
 	} else if fn.Pkg == nil {
 		if o := fn.Origin(); o != nil && o.Pkg != nil && i.eng.dynPkg[o.Pkg] {
@@ -801,4 +809,19 @@ func infoOf(fn *ssa.Function) *fnInfo {
 
 func (fr *frame) set(key ssa.Value, v value) {
 	fr.env[fr.info.index[key]] = v
+}
+
+// ensureInit runs the package initialiser of a per-path (tengo) package the
+// first time the path touches one of its functions or globals.
+func (i *interpreter) ensureInit(p *ssa.Package) {
+	if i.dynInited[p] {
+		return
+	}
+	i.dynInited[p] = true
+	if f := p.Func("init"); f != nil {
+		savedHook := i.inHook
+		i.inHook = true // no harness hooks while initialising
+		call(i, nil, token.NoPos, f, nil)
+		i.inHook = savedHook
+	}
 }
